@@ -126,6 +126,8 @@ def build(specs, batched):
         kw["active_dims"] = tuple(s0["active"])
 
     def ard(key="ls"):
+        if s0.get("ard1") and len(s0[key]) == 1:
+            return 1                      # explicit ard_num_dims=1 (legal, rarely used)
         return len(s0[key]) if len(s0[key]) > 1 else None
 
     def P(key, shape=None):
@@ -237,7 +239,8 @@ def build(specs, batched):
             elif t == "prodstruct":
                 k = K.ProductStructureKernel(base, num_dims=d)
             else:
-                k = K.NewtonGirardAdditiveKernel(base, d, max_degree=len(s0["s"]), batch_shape=bs)
+                k = K.NewtonGirardAdditiveKernel(base, d, max_degree=None if s0.get("md_none") else len(s0["s"]),
+                                                 batch_shape=bs)
                 k.outputscale = P("s", (len(s0["s"]),))
     else:
         raise ValueError(f"unknown kernel spec {t}")
@@ -282,7 +285,7 @@ def tokens(spec, k, b, batched):
     if t == "rbf":
         s = f"rbf {vec(g(k.lengthscale))}"
     elif t == "matern":
-        s = f"matern {int(round(2 * k.nu))} {vec(g(k.lengthscale))}"
+        s = f"matern {int(spec['nu2'])} {vec(g(k.lengthscale))}"   # nu, q, power, vocab: as REQUESTED, not read back
     elif t == "rq":
         s = f"rq {vec(g(k.lengthscale))} {num(g(k.alpha)[0])}"
     elif t == "periodic":
@@ -292,9 +295,9 @@ def tokens(spec, k, b, batched):
     elif t == "linear":
         s = f"linear {vec(g(k.variance))}"
     elif t == "poly":
-        s = f"poly {num(g(k.offset)[0])} {int(k.power)}"
+        s = f"poly {num(g(k.offset)[0])} {int(spec['p'])}"
     elif t == "pp":
-        s = f"pp {int(k.q)} {vec(g(k.lengthscale))}"
+        s = f"pp {int(spec['q'])} {vec(g(k.lengthscale))}"
     elif t == "const":
         s = f"const {num(g(k.constant)[0])}"
     elif t == "sm":
@@ -314,7 +317,7 @@ def tokens(spec, k, b, batched):
         W = (W[b] if batched else W).t().tolist()
         s = f"rff {vec(g(k.lengthscale))} {mat(W)}"
     elif t == "hamming":
-        s = f"hamming {int(k.vocab_size)} {num(g(k.alpha)[0])} {num(g(k.beta)[0])}"
+        s = f"hamming {int(spec['vocab'])} {num(g(k.alpha)[0])} {num(g(k.beta)[0])}"
     elif t == "gskl":
         s = f"gskl {num(g(k.lengthscale)[0])}"
     elif t == "arc":
@@ -325,7 +328,7 @@ def tokens(spec, k, b, batched):
              f"{vec(g(k.angle))} {vec(g(k.radius))}")
     elif t == "cyl":
         s = (f"cyl {tokens(spec['radial'], k.radial_base_kernel, b, batched)} {vec(g(k.angular_weights))} "
-             f"{num(g(k.alpha)[0])} {num(g(k.beta)[0])} {num(k.eps)}")
+             f"{num(g(k.alpha)[0])} {num(g(k.beta)[0])} {num(spec['eps'])}")
     elif t == "scale":
         s = f"scale {num(g(k.outputscale)[0])} {tokens(spec['k'], k.base_kernel, b, batched)}"
     elif t in ("add", "mul"):
@@ -354,7 +357,7 @@ def tokens_dim(spec, k, b, batched, l):
     if t == "rbf":
         return f"rbf {vec(pick(g(k.lengthscale)))}"
     if t == "matern":
-        return f"matern {int(round(2 * k.nu))} {vec(pick(g(k.lengthscale)))}"
+        return f"matern {int(spec['nu2'])} {vec(pick(g(k.lengthscale)))}"
     if t == "rq":
         return f"rq {vec(pick(g(k.lengthscale)))} {num(g(k.alpha)[0])}"
     if t == "periodic":
@@ -394,10 +397,14 @@ def slack(spec, X1, X2, same):
         d = A.shape[1]
         na, nb = (a * a).sum(1)[:, None], (bb * bb).sum(1)[None, :]
         dsq = 16 * (d + 3) * EPS * (na + nb + 1e-300)
+        D = np.sqrt(np.maximum(((a[:, None, :] - bb[None, :, :]) ** 2).sum(-1), 0))
+        # x / lengthscale is rounded BEFORE the centring: absolute error eps*|x/l| per coordinate (matters for
+        # inputs with a huge common offset such as time stamps)
+        din = 8 * EPS * math.sqrt(d) * max(float(np.abs(A / ls).max()), float(np.abs(B / ls).max()), 1.0)
+        dsq = dsq + 2 * D * din + din * din
         if cls == "sq":
             return 1.0, L * dsq
-        D = np.sqrt(np.maximum(((a[:, None, :] - bb[None, :, :]) ** 2).sum(-1), 0))
-        dd = np.minimum(np.sqrt(dsq), dsq / (2 * np.maximum(D, 1e-300))) + 4e-15 + 8 * EPS * D
+        dd = np.minimum(np.sqrt(dsq), dsq / (2 * np.maximum(D, 1e-300))) + 4e-15 + 8 * EPS * D + din
         return 1.0, L * dd
     if t == "linear":
         v = max(abs(x) for x in spec["v"])
@@ -532,7 +539,18 @@ def input_variants(rng, d, mk=rand_x):
     dup[-1] = list(dup[0])
     out.append(("duplicate-row", dup, None))
     out.append(("single-row", mk(rng, 1, d), None))
+    out.append(("equal-clone", x1, [list(r) for r in x1]))           # a DIFFERENT tensor holding the same values
     return out
+
+
+def large_offset_inputs(rng, d, step):
+    """two point sets of EQUAL shape that differ by half a grid step on top of a huge common offset (time stamps):
+    |x1 - x2| / |x| < 1e-5 although the points are far apart in units of the lengthscale"""
+    n = rng.randint(2, 5)
+    off = [rng.choice([1.0e7, 3.0e8, 1.7e9]) * rng.choice([1, -1]) for _ in range(d)]
+    x1 = [[off[j] + step * (i + rng.choice([0, 1, 2]) * (j > 0)) for j in range(d)] for i in range(n)]
+    x2 = [[v + step * rng.choice([0.5, 0.25, 1.5]) for v in r] for r in x1]
+    return x1, x2
 
 
 FLAGSETS = [
@@ -621,6 +639,55 @@ def gen_cases(ctx, rng):
                 emit(f"{fam}/kernel-batch/distinct-shapes", spB, True, xb1, None if flags.get("diag") else xb2, flags, xbatch=B)
                 emit(f"{fam}/input-batch/distinct-shapes", [spB[0]], False, xb1, None if flags.get("diag") else xb2, flags, xbatch=B)
 
+    # --- blind-spot families (round 2): aliasing, near-equal point sets, falsy / unusual-but-legal arguments
+    STAT = ["rbf", "matern1", "matern3", "matern5", "rq", "periodic", "cosine", "pp0", "pp1", "pp2", "pp3"]
+    for rep in range(reps):
+        for fam in STAT:
+            # (i) equal shapes, different points, huge common offset (|x1-x2|/|x| < 1e-5): must NOT be treated as x1 == x2
+            d = rng.randint(1, 3)
+            step = rng.choice([1800.0, 3600.0, 1.0, 0.5])
+            ardflag = fam not in NO_ARD and d > 1 and rng.random() < 0.5
+            spec = rand_leaf(rng, fam, d, ardflag)
+            for key in ("ls", "ps"):
+                if key in spec:
+                    spec[key] = [v * step for v in spec[key]]
+            if "p" in spec and spec["t"] == "cosine":
+                spec["p"] = spec["p"] * step
+            x1, x2 = large_offset_inputs(rng, d, step)
+            variants = [(f"{fam}/large-offset", [spec])]
+            if rng.random() < 0.5:
+                variants.append((f"scale({fam})/large-offset", [{"t": "scale", "s": logu(rng, 0.2, 5.0), "k": spec}]))
+            for name, sp in variants:
+                for flags in [{}, {"lazy": False}, {"param_grad": False}]:
+                    emit(name, sp, False, x1, x2, flags)
+                emit(name, sp, False, x1, None, {"diag": True})
+            # (ii) `x2 is x1` passed explicitly; explicit ard_num_dims=1; active_dims=[0]
+            d = rng.randint(1, 3)
+            spec = rand_leaf(rng, fam, d, False)
+            x1 = rand_x(rng, rng.randint(2, 5), d)
+            emit(f"{fam}/x2-is-x1", [spec], False, x1, None, {"same_obj": True})
+            emit(f"{fam}/x2-is-x1", [spec], False, x1, None, {"same_obj": True, "x_grad": True})
+            if fam not in NO_ARD:
+                sp1 = dict(rand_leaf(rng, fam, 1, False), ard1=True)
+                xa, xb = rand_x(rng, rng.randint(2, 4), 1), rand_x(rng, rng.randint(5, 6), 1)
+                emit(f"{fam}/ard_num_dims=1", [sp1], False, xa, xb, {})
+                emit(f"{fam}/ard_num_dims=1", [sp1], False, xa, None, {"diag": True})
+            dd = rng.randint(2, 4)
+            sp0 = dict(rand_leaf(rng, fam, 1, False), active=[0])
+            xa, xb = rand_x(rng, rng.randint(2, 4), dd), rand_x(rng, rng.randint(5, 6), dd)
+            emit(f"{fam}/active_dims=[0]", [sp0], False, xa, xb, {})
+        # (iii) two batch dimensions on the inputs, sizes pairwise different
+        for fam in rng.sample(LEAVES, 4 if quick else len(LEAVES)):
+            d = rng.choice([1, 4]) if fam != "sm" else 4
+            spec = rand_leaf(rng, fam, d, False)
+            n1, n2 = 5, 7
+            xb1 = [rand_x(rng, n1, d) for _ in range(6)]
+            xb2 = [rand_x(rng, n2, d) for _ in range(6)]
+            cases.append({"desc": f"{fam}/input-batch[2,3]", "kern": [spec], "batched": False, "x1": xb1, "x2": xb2,
+                          "flags": {}, "xbatch": 6, "bview": [2, 3]})
+            cases.append({"desc": f"{fam}/input-batch[2,3]", "kern": [spec], "batched": False, "x1": xb1, "x2": None,
+                          "flags": {"diag": True}, "xbatch": 6, "bview": [2, 3]})
+
     # --- composites
     for rep in range(2 * reps):
         d = rng.randint(2, 4)
@@ -678,7 +745,9 @@ def gen_cases(ctx, rng):
             R = rng.randint(1, d)
             wr = [("addstruct", {"t": "addstruct", "d": d, "k": b0}),
                   ("prodstruct", {"t": "prodstruct", "d": d, "k": b0}),
-                  ("ng", {"t": "ng", "d": d, "k": b0, "s": [logu(rng, 0.05, 3.0) for _ in range(R)]})]
+                  ("ng", {"t": "ng", "d": d, "k": b0, "s": [logu(rng, 0.05, 3.0) for _ in range(R)]}),
+                  ("ng-max_degree=None", {"t": "ng", "d": d, "k": b0, "md_none": True,
+                                          "s": [logu(rng, 0.05, 3.0) for _ in range(d)]})]
             for name, sp in wr:
                 for tag, x1, x2 in input_variants(rng, d)[:3]:
                     for flags in [{}, {"diag": True}]:
@@ -819,6 +888,12 @@ def eval_real(case):
             p.requires_grad_(False)
     x1 = torch.tensor(case["x1"], dtype=torch.float64)
     x2 = None if case["x2"] is None else torch.tensor(case["x2"], dtype=torch.float64)
+    if fl.get("same_obj"):
+        x2 = x1                                # `x2 is x1`, passed explicitly
+    bview = case.get("bview")
+    if bview:                                  # >= 2 batch dimensions on the inputs
+        x1 = x1.reshape(*bview, *x1.shape[-2:])
+        x2 = None if x2 is None else x2.reshape(*bview, *x2.shape[-2:])
     if fl.get("x_grad"):
         x1.requires_grad_(True)
         if x2 is not None:
@@ -833,6 +908,8 @@ def eval_real(case):
                 out = k(x1, x2) if x2 is not None else k(x1)
                 out = out.to_dense()
     out = out.detach()
+    if bview:
+        out = out.reshape(case["xbatch"], *out.shape[len(bview):])
     if case.get("xbatch"):
         res = [out[b].numpy() for b in range(case["xbatch"])]
     else:
@@ -1414,9 +1491,9 @@ def generated_kernels(ctx, rng, q):
             elif t == "linear":
                 heads = [f"linear {vec(full(g(k.variance)))}", f"linearsame {vec(full(g(k.variance)))}"]
             elif t == "poly":
-                heads = [f"{h} {num(g(k.offset)[0])} {int(k.power)}" for h in ("poly", "polyb", "polyd")]
+                heads = [f"{h} {num(g(k.offset)[0])} {int(spec['p'])}" for h in ("poly", "polyb", "polyd")]
             elif t == "pp":
-                heads = [f"pp {int(k.q)} {vec(full(g(k.lengthscale)))}"]
+                heads = [f"pp {int(spec['q'])} {vec(full(g(k.lengthscale)))}"]
             else:
                 heads = [f"const {num(g(k.constant)[0])}"]
             hs = [q.ask(f"GK {h} {mat(x1)} {mat(x2)}") for h in heads]
